@@ -744,6 +744,7 @@ class Exec(object):
             if isinstance(b, (int, SInt)):
                 if not self.branch_pruned(b >= 0):
                     raise EngineLimit("hex format of a negative number")
+                self.hex_hint(b)
                 return SText("hexnum", v=b, width=a.width, pad=0)
         if a is None or b is None:
             self.raise_("TypeError", line)
@@ -839,12 +840,14 @@ class Exec(object):
                 return "%x" % arg
             if not self.entails(arg >= 0):
                 raise EngineLimit("%%x of an integer not known to be non-negative (line %s)" % line)
+            self.hex_hint(arg)
             return SText("hexnum", v=arg, width=None, pad=0)
         import re
         m = re.match(r"^%0(\d+)x$", fmt)
         if m and isinstance(arg, (int, SInt)):
             if isinstance(arg, int):
                 return fmt % arg
+            self.hex_hint(arg)
             return SText("hexnum", v=arg, width=int(m.group(1)), pad=0)
         # any other formatting only builds messages
         try:
@@ -855,6 +858,11 @@ class Exec(object):
         except Exception:
             pass
         return SText("opaque")
+
+    def hex_hint(self, v):
+        """ground instance of axiom bytelen_def for the number being formatted (names bytelen(v) for E-matching)"""
+        if isinstance(v, SInt):
+            self.pc.append(z3.Implies(v.t >= 0, z3.And(sym.BYTELEN(v.t) == (sym.HEXLEN(v.t) + 1) / 2, sym.HEXLEN(v.t) >= 1)))
 
     def compare(self, op, a, b, line):
         if isinstance(op, ast.Is):
